@@ -60,7 +60,7 @@ def isRenewal (r : Request) : Bool := r.method = mSUBSCRIBE && (hdr r kSID).isSo
 /-! ### what the publisher granted -/
 
 /-- largest number of seconds a `timedelta` can hold -/
-def maxTd : Nat := 86399999913600
+def maxTd : Nat := 86399999999999
 
 /-- The timeout a 200 response grants: `Second-N` if present and finite, else the requested one.
     `none`: the header mentions `Second-` but is no (representable) `Second-N` — outside the property. -/
@@ -195,5 +195,22 @@ def okFrom : PyDict Str Nat → List Step → Bool
     else true   -- outside the property's domain from here on
 
 def ok (h : List Step) : Bool := okFrom [] h
+
+end Upnp.C09
+
+namespace Upnp.C09
+open Upnp PyDict
+
+/-- the step record of the MODEL for one call (what the driver compares the implementation's with) -/
+def modelStep (cfg : Cfg) (probes : List Str) (nsvc : Nat) (rt : Routing) (c : Call) (rs : List Reaction) : Step :=
+  let o := runCall cfg rt c rs
+  { call := c, exch := o.exch, res := o.res,
+    routed := probes.map fun s => (s, get? o.rt s),
+    sidFor := (List.range nsvc).map fun i => (i, sidForService o.rt i) }
+
+/-- the model's trace of a history of calls, each with the publisher's reaction script -/
+def modelTrace (cfg : Cfg) (probes : List Str) (nsvc : Nat) : Routing → List (Call × List Reaction) → List Step
+  | _, [] => []
+  | rt, (c, rs) :: h => modelStep cfg probes nsvc rt c rs :: modelTrace cfg probes nsvc (runCall cfg rt c rs).rt h
 
 end Upnp.C09
